@@ -17,3 +17,9 @@ pub open spec fn strs_view(v: Seq<String>) -> Seq<Seq<char>> { v.map_values(|s: 
 pub fn vx_iter_join_nl(it: VxIter<String>) -> (r: String)
     ensures r@ == join_seqs(strs_view(it@), seq!['\n'])
 { unimplemented!() }
+
+/// R-method-map: `v.join(sep)` on a Vec<String>
+#[verifier::external_body]
+pub fn vx_vec_join(v: &Vec<String>, sep: &str) -> (r: String)
+    ensures r@ == join_seqs(strs_view(v@), sep@)
+{ unimplemented!() }
